@@ -145,7 +145,7 @@ PROPS['C17'] = {
             'and 3 with lvalue/const/rvalue arguments, reference tuples, tuple_cat over reference elements) with generated values; oracle: std::optional / '
             'index+payload models compared after every operation, accessor addresses inside the holder, std::tuple_cat. Non-trivial: an operation whose '
             'source and destination states differ, a manual_box destruct/re-initialise cycle, or a tuple battery over >= 2 tuples; distinct = hash of the decoded case.',
-    'required_tags': ['kind-%d' % k for k in range(10)] + ['tuple-%d' % k for k in range(6)] + ['manual_box', 'variant-pair-d3-s3-op0', 'optional-pair-d0-s0-op2', 'expected-pair-d0-s0-op1'],
+    'required_tags': ['kind-%d' % k for k in range(10)] + ['tuple-%d' % k for k in range(6)] + ['manual_box', 'variant-pair-d3-s3-op0', 'optional-pair-d0-s0-op2', 'expected-pair-d0-s0-op1', 'self-assign'],
     'min_cases': {'quick': 20000, 'thorough': 300000},
     'level_text': 'complete enumeration of the (destination state x source state x operation) products plus generated histories against std::optional/std::variant-style models; held on everything generated',
     'level_note': 'trusts the models; moved-from holders are modelled like the std types (state kept, Tracked payload marked)',
@@ -239,7 +239,7 @@ PROPS['C04'] = {
             'blocks keep address, reported size and contents, the mapped-region set and numUsedPages() are unchanged, no pool lock is held (instrumented mutex); the same '
             'request repeated with mapping enabled succeeds; the history continues under the C01-C03 oracle. Non-trivial: >= 1 injected failure was hit by a small '
             'allocation, a large allocation or a copying realloc; distinct = hash of (fault plan, decoded history).',
-    'required_tags': ['fault-small', 'fault-large', 'fault-realloc', 'fault-hit'],
+    'required_tags': ['fault-small', 'fault-large', 'fault-realloc', 'fault-hit'] + [t + '+softpoison' for t in CFG_TAGS],
     'min_cases': {'quick': 8000, 'thorough': 150000},
     'level_text': 'every single and every pair of Policy::map positions failed for a family of base histories, plus random fault masks over generated histories',
     'level_note': 'fault points are the calls to Policy::map only (the only fallible call the pool makes); base histories are a fixed deterministic family',
